@@ -1,10 +1,13 @@
 """C17 — module privacy and name resolution.
 
 prove      : lake build Mimium.Props.C17 (theorems over all module trees / positions / reference forms) + axiom audit
-correspond : module trees (exhaustive small scope + random) -> Lean model `drv_c17` predicts class/constant and renders the
+correspond : module trees with fn / mod / use / let items (exhaustive small scope + random); the probe (the site whose
+             resolution is judged) is a function in any module, or a `let` -- top level after every prefix of the item list,
+             or inside a module before / after its functions -> Lean model `drv_c17` predicts class/constant and renders the
              source text -> harness `c17` compiles that text with the real compiler and runs one sample -> compare
-decide     : the implementation's own output is judged against the property (private member reached from outside,
-             private module traversed from outside, local binding not shadowing); listed finding classes print KNOWN-FINDING.
+decide     : the implementation's own output is judged against the property (private function / non-pub module-level let
+             reached from outside, private module traversed from outside, local binding not shadowing); listed finding
+             classes print KNOWN-FINDING.
 """
 import os, json, collections, itertools, hashlib
 from vlib import *
@@ -687,7 +690,7 @@ def main(ctx, args):
     ctx.assumptions += [
         "Model/ModRes.lean is a hand port of ast/program.rs (module flattening, ModuleInfo, process_use_statement, resolve_qualified_path) and mirgen/convert_qualified_names.rs; the tie is the correspondence run below",
         "mangled symbols are modelled as segment lists ($-join is injective because identifiers cannot contain '$'); hash maps as association lists (never iterated by the code)",
-        "only fn / inline mod / use statements and Let, LetRec, Lambda, Var, QualifiedVar, nullary Apply are modelled; type declarations, external module files, stages, global let inside modules are not",
+        "only fn / inline mod / use / let (single-name pattern, top level and module level, `pub let` accepted and ignored) statements and Let, LetRec, Lambda, Var, QualifiedVar, nullary Apply are modelled; type declarations, external module files, stages, tuple/record let patterns, bare expression statements are not",
         "typing.rs lexical lookup and evaluation are modelled in Model/ModResIO.lean and only exercised (no theorem)",
         "generated identifiers (dsp, n1..n9) do not clash with builtin names",
     ]
@@ -735,7 +738,11 @@ def main(ctx, args):
         ctx.coverage["exhaustive_scope"] = (f"all module trees with <= {max_defs} functions (names n4,n5; modules n1,n2; depth <= 2; every pub/private assignment of functions"
                                             + ("" if max_defs <= 2 else " and nested modules") + ") "
                                             "x (no use | one use / pub use: single, {..}, * of every absolute/relative path, placed at top or in any module) "
-                                            "x probe position (top level or any module) x reference (identifier, every absolute/relative path) x (plain | locally shadowed)")
+                                            "x probe position (top level or any module) x reference (identifier, every absolute/relative path) x (plain | locally shadowed)"
+                                            "  +  let scope: A) every such tree (nested modules non-pub) x (no let item | one `let n7 = const` first or last (`pub let`) in the top-level block or in any module) "
+                                            "x probe (top-level `let n8 = ref()` after EVERY prefix of the item list | module-level `let n8 = ref()` first / last in any module | fn probe in any module | fn probe whose reference is the right-hand side of a local `let n7`) "
+                                            "x reference (functions and lets: identifier, every absolute/relative path) x probe name (n8 | n7 = name of the let item); "
+                                            "B) every such tree x one use / pub use (single, {..}, *; first or last at top level) x top-level let probe after every prefix x reference")
         ctx.coverage["exhaustive_stride"] = stride
         ctx.coverage["exhaustive"] = False
     # ---- decide
